@@ -17,10 +17,14 @@ def safe(f, *a):
         return f"EXC {type(e).__name__}: {e}"
 
 
-def main():
-    clause = sys.argv[1]
-    ks = sys.argv[2:]
-    terms = T.terms(depth=2)
+_TERMS = None
+
+
+def run(clause, ks):
+    global _TERMS
+    if _TERMS is None:
+        _TERMS = T.terms(depth=2)
+    terms = _TERMS
     out = []
     tried = 0
     if clause == "mirror":
@@ -87,11 +91,26 @@ def main():
                 if r is not want:
                     out.append(dict(t1=repr(a), t2=repr(b), result=str(r), expected=str(want)))
     else:
-        print(json.dumps(dict(error=f"unknown clause {clause}")))
-        return 3
-    print(json.dumps(dict(clause=clause, kinds=ks, violations=out[:20], n_violations=len(out), pairs_tried=tried)))
-    return 1 if out else 0
+        raise SystemExit(f"unknown clause {clause}")
+    return dict(clause=clause, kinds=ks, violations=out[:20], n_violations=len(out), pairs_tried=tried)
+
+
+def _pairs():
+    for i, a in enumerate(T.KINDS):
+        for b in T.KINDS[i:]:
+            yield ("mirror", [a, b])
+
+
+SUITE = list(_pairs()) + [("reflexive", [k]) for k in T.KINDS] + [
+    ("class_fragment", []),
+    ("union_above_members", []),
+    ("intersection_below_members", []),
+    ("alias_origin", []),
+    ("alias_argwise", []),
+] + [("dependent_below_bound", [k]) for k in ["Equals", "FuncDep", "Product"]]
 
 
 if __name__ == "__main__":
-    sys.exit(main())
+    r = run(sys.argv[1], sys.argv[2:])
+    print(json.dumps(r))
+    sys.exit(1 if r["n_violations"] else 0)
